@@ -98,3 +98,16 @@ Theorem optimisations_same_set_partial : forall sn musts shoulds nots ms,
   answer sn copts_default (flatq musts shoulds nots ms) = answer sn copts_plain (flatq musts shoulds nots ms).
 Proof. exact optimisation_same_answer_flat. Qed.
 Print Assumptions optimisations_same_set_partial.
+
+(* layout_independent_matches for arbitrarily nested boolean queries over term / match-none clauses
+   (C07 search_exact_nested_partial): two well-formed layouts with the same logical content give
+   Ok answers that are permutations of each other.  Full statement (every query kind, default
+   options): open with the leaves C07 does not cover yet. *)
+From Bluge Require Import Search.SearchersProofsGeneral.
+Theorem layout_independent_matches_nested_partial : forall sn1 sn2 q d,
+  wf_sn sn1 -> wf_sn sn2 -> qok d q -> (2 * d + 1 <= depth_fuel q)%nat ->
+  Permutation (logical sn1) (logical sn2) ->
+  exists ids1 ids2,
+    answer sn1 copts_plain q = Ok ids1 /\ answer sn2 copts_plain q = Ok ids2 /\ Permutation ids1 ids2.
+Proof. exact layout_independent_matches_nested. Qed.
+Print Assumptions layout_independent_matches_nested_partial.
